@@ -372,7 +372,7 @@ func emptyRangeSeen(c *Check, fis []*FuncInfo) {
 		seen[fi.Obj] = true
 		info := fi.Info()
 		n := 0
-		var walk func(stmts []ast.Stmt, outer [][]ast.Stmt)
+		var walk func(stmts []ast.Stmt, outer [][]ast.Stmt, loops []ast.Stmt)
 		emptyCtor := func(e ast.Expr) bool {
 			e = ast.Unparen(e)
 			if isNilIdent(info, e) {
@@ -410,7 +410,7 @@ func emptyRangeSeen(c *Check, fis []*FuncInfo) {
 			})
 			return found
 		}
-		check := func(rs *ast.RangeStmt, before []ast.Stmt, outer [][]ast.Stmt) {
+		check := func(rs *ast.RangeStmt, before []ast.Stmt, outer [][]ast.Stmt, loops []ast.Stmt) {
 			x := ast.Unparen(rs.X)
 			switch x.(type) {
 			case *ast.Ident, *ast.SelectorExpr:
@@ -423,6 +423,23 @@ func emptyRangeSeen(c *Check, fis []*FuncInfo) {
 				return
 			}
 			txt := exprStr(x)
+			// a loop around the range statement whose body touches the operand elsewhere fills it on an earlier way round
+			countIn := func(n ast.Node) int {
+				k := 0
+				ast.Inspect(n, func(y ast.Node) bool {
+					if e, ok := y.(ast.Expr); ok && exprStr(e) == txt {
+						k++
+						return false
+					}
+					return true
+				})
+				return k
+			}
+			for _, lp := range loops {
+				if countIn(lp) > countIn(rs) {
+					return
+				}
+			}
 			lists := append([][]ast.Stmt{before}, outer...)
 			for _, list := range lists {
 				for i := len(list) - 1; i >= 0; i-- {
@@ -443,15 +460,20 @@ func emptyRangeSeen(c *Check, fis []*FuncInfo) {
 				}
 			}
 		}
-		walk = func(stmts []ast.Stmt, outer [][]ast.Stmt) {
+		walk = func(stmts []ast.Stmt, outer [][]ast.Stmt, loops []ast.Stmt) {
 			for i, s := range stmts {
 				before := stmts[:i]
 				if rs, ok := s.(*ast.RangeStmt); ok {
-					check(rs, before, outer)
+					check(rs, before, outer, loops)
 				}
 				sub := func(b *ast.BlockStmt) {
 					if b != nil {
-						walk(b.List, append([][]ast.Stmt{before}, outer...))
+						lp := loops
+						switch s.(type) {
+						case *ast.ForStmt, *ast.RangeStmt:
+							lp = append(append([]ast.Stmt{}, loops...), s)
+						}
+						walk(b.List, append([][]ast.Stmt{before}, outer...), lp)
 					}
 				}
 				switch x := s.(type) {
@@ -479,16 +501,16 @@ func emptyRangeSeen(c *Check, fis []*FuncInfo) {
 					sub(x.Body)
 				case *ast.SwitchStmt:
 					for _, cc := range x.Body.List {
-						walk(cc.(*ast.CaseClause).Body, append([][]ast.Stmt{before}, outer...))
+						walk(cc.(*ast.CaseClause).Body, append([][]ast.Stmt{before}, outer...), loops)
 					}
 				case *ast.TypeSwitchStmt:
 					for _, cc := range x.Body.List {
-						walk(cc.(*ast.CaseClause).Body, append([][]ast.Stmt{before}, outer...))
+						walk(cc.(*ast.CaseClause).Body, append([][]ast.Stmt{before}, outer...), loops)
 					}
 				}
 			}
 		}
-		walk(fi.Decl.Body.List, nil)
+		walk(fi.Decl.Body.List, nil, nil)
 	}
 }
 
@@ -693,6 +715,9 @@ func c16SMTPCodeArgs(c *Check, rule string) {
 				cls := func(e ast.Expr) int {
 					if tv, has := info.Types[e]; has && tv.Value != nil {
 						if v, ok := constInt(tv); ok {
+							if v < 10 {
+								return int(v) // the class digit itself (`code[0] = SMTPCode(err, 4, 5)`)
+							}
 							return int(v / 100)
 						}
 					}
